@@ -452,6 +452,9 @@ def treeseq_count_topologies(ts, sample_sets):
 
     for sample_set_index, sample_set in enumerate(sample_sets):
         for u in sample_set:
+            if u < 0:
+                # ts.node() accepts negative (Python-style) indexes; node ids do not
+                raise ValueError(f"Node {u} in sample_sets is out of bounds.")
             if not ts.node(u).is_sample():
                 raise ValueError(f"Node {u} in sample_sets is not a sample.")
             topology_counter[u] = TopologyCounter.from_sample(sample_set_index)
